@@ -83,6 +83,8 @@ func vdErrClass(err error) string {
 		return "EMagic"
 	case strings.Contains(s, "record batch too small"):
 		return "EBatchSmall"
+	case strings.Contains(s, "negative last offset delta"):
+		return "ELastDelta"
 	case strings.Contains(s, "compressed"):
 		return "ECompressed"
 	case strings.Contains(s, "record count"):
